@@ -566,7 +566,17 @@ pub fn bye_spaces(_tier: Tier, seed: u64) -> Vec<CfgSpace> {
         let k = [0usize, 1, 3][((idx / n) % 3) as usize];
         Pkt::Bye { ssrcs: (0..k as u32).map(|i| 0x0B00_0000 + i).collect(), reason: ODD_TEXTS[(idx % n) as usize].to_string(), pad: if idx / n / 3 == 0 { 0 } else { 4 } }
     }),
-    wide_count_space(2)]
+    wide_count_space(2),
+    // the last byte of the reason against the reason's length: every length 1..=126 x every last byte 1..=127 (the
+    // byte that ends the packet when 1 + len is a multiple of 4 may equal the tail length, a plausible padding count,
+    // the length byte itself ... - content that looks like structure), without / with one source
+    CfgSpace::new("bye-reason-length-x-last-byte", 126 * 127 * 2, move |idx| {
+        let len = (idx % 126) as usize + 1;
+        let last = ((idx / 126) % 127) as u8 + 1;
+        let mut reason: String = "r".repeat(len - 1);
+        reason.push(last as char);
+        Pkt::Bye { ssrcs: if idx / (126 * 127) == 0 { vec![] } else { vec![0x0C00_0001] }, reason, pad: 0 }
+    })]
 }
 
 /// BYE source lists as patterns over three values (duplicates, equal ends, alternations): every sequence of length
@@ -660,6 +670,13 @@ pub fn app_spaces(tier: Tier, _seed: u64) -> Vec<CfgSpace> {
             }
             let data: Vec<u8> = (0..n).map(|i| (i as u64 * 13 + idx) as u8).collect();
             Pkt::App { ssrc: 0x0A0B_0C0D, subtype: 31, name: "big".to_string(), data, pad }
+        }),
+        // the last payload byte (the packet's last byte when there is no padding): every value x a few sizes
+        CfgSpace::new("app-last-payload-byte", 256 * 6, move |idx| {
+            let n = [4usize, 8, 12, 16, 252, 256][(idx / 256) as usize];
+            let mut data: Vec<u8> = (0..n).map(|i| (i as u8).wrapping_mul(3) | 0x40).collect();
+            data[n - 1] = (idx % 256) as u8;
+            Pkt::App { ssrc: 0x0A0B_0C0D, subtype: 1, name: "last".to_string(), data, pad: 0 }
         }),
         // every payload size 0, 4, 8 ... 4 * dense_bound bytes (see `dense_bound`), padded on every third
         CfgSpace::new("app-every-payload-size", dense_bound(tier) as u64 + 1, move |idx| {
@@ -1032,6 +1049,13 @@ pub fn fb_dense_spaces(tier: Tier) -> Vec<CfgSpace> {
         let e = (0..k).map(|i| (((i as u32) << 24) ^ (i as u32).wrapping_mul(0x0001_0003), ((i + k) % 251) as u8)).collect();
         Pkt::Fb { kind: Kind::Payload, sender: 0x5E4D_3C2B, media: 0x1A2B_3C4D, fci: Fci::Fir(e), pad: if k % 5 == 0 { 4 } else { 0 } }
     }));
+    // RPSI strings that end the packet without padding bits (2 + len a multiple of 4): every value of the last byte
+    v.push(CfgSpace::new("rpsi-last-byte", 256 * 4, move |idx| {
+        let n = [2usize, 6, 10, 254][(idx / 256) as usize];
+        let mut data: Vec<u8> = (0..n).map(|i| (i as u8).wrapping_mul(3) | 0x40).collect();
+        data[n - 1] = (idx % 256) as u8;
+        Pkt::Fb { kind: Kind::Payload, sender: 0x5E4D_3C2B, media: 0x1A2B_3C4D, fci: Fci::Rpsi { pt: 96, data, overrun: 0 }, pad: 0 }
+    }));
     v.push(CfgSpace::new("rpsi-every-length", nd * 2, move |idx| {
         let k = (idx / 2) as usize;
         let overrun = if k == 0 { 0 } else { [0u8, 3][(idx % 2) as usize] };
@@ -1110,6 +1134,12 @@ pub fn unknown_spaces(tier: Tier, _seed: u64) -> Vec<CfgSpace> {
                 pad = (262_144 - 4 - n).min(252) as u8 & !3;
             }
             Pkt::Unknown { pt: [207u8, 0, 255][(idx % 3) as usize], count: (idx % 32) as u8, data: (0..n).map(|i| (i as u64 * 17 + idx) as u8).collect(), pad }
+        }),
+        CfgSpace::new("unknown-last-payload-byte", 256 * 6, move |idx| {
+            let n = [4usize, 8, 12, 16, 252, 256][(idx / 256) as usize];
+            let mut data: Vec<u8> = (0..n).map(|i| (i as u8).wrapping_mul(3) | 0x40).collect();
+            data[n - 1] = (idx % 256) as u8;
+            Pkt::Unknown { pt: 207, count: 1, data, pad: 0 }
         }),
         // every payload size 0, 4, 8 ... 4 * dense_bound bytes (see `dense_bound`)
         CfgSpace::new("unknown-every-payload-size", dense_bound(tier) as u64 + 1, move |idx| {
